@@ -68,6 +68,8 @@ def drv_utility(tier, rng):
             w = {setkey(s): Q * rng.choice([0, 1, 2, 3, 4]) for s in subsets(cs)}
         else:
             w = {c: Q * rng.choice([0, 1, 2, 3, 6]) for c in cs}
+            if rng.random() < 0.25:       # any real weights: negative ones too, next to zeros
+                w = {c: Q * rng.choice([-4, -2, -1, 0, 0, 1, 3]) for c in cs}
         known = alts(tab, m)
         nchose = rng.randint(1, n)
         chose = [a['id'] for a in rng.sample(known, nchose)]
@@ -75,6 +77,11 @@ def drv_utility(tier, rng):
         for c in crits:     # a criterion without `type` is a gain criterion
             if c['type'] == 'gain' and method != 'choquetIntegral' and rng.random() < 0.2:
                 del c['type']
+        if n >= 2 and rng.random() < 0.1:        # ids are case sensitive: 'a1' and 'A1' are two alternatives
+            known[1]['id'] = known[0]['id'].upper()
+            chose = [known[1]['id'] if x == ALT[1] else x for x in chose]
+            if known[1]['id'] not in chose:
+                chose.append(known[1]['id'])
         req = {'preferenceFunction': method, 'knownAlternatives': known, 'choseToMake': chose,
                'criteria': crits, 'methodParameters': {'weights': w}, 'biases': []}
         g = []
@@ -159,6 +166,11 @@ def drv_majority(tier, rng):
         req = heur_req(rng, 'majorityHeuristic', n, m, [0, 1, 2] if rng.random() < 0.6 else [0, 1, 2, 3, 5, 8], extra, unit=unit)
         mp = {'weights': {CRIT[j]: (rng.choice([1, 2, 3, 3, 4, 6, 7]) if dec else UNIT * rng.choice([1, 1, 2, 3])) for j in range(m)},
               'randomSeed': rng.randint(0, 10 ** 6)}
+        if not dec and rng.random() < 0.15:    # big values one step apart are different values (the 1e-6 tolerance is absolute)
+            big = UNIT * (1 << 20)
+            for a in req['knownAlternatives']:
+                for c_ in a['criteria']:
+                    a['criteria'][c_] += big
         if not dec and rng.random() < 0.2:     # any weights: zero and negative ones count like the others
             for j in range(m):
                 if rng.random() < 0.5:
@@ -263,6 +275,18 @@ def drv_aspect(tier, rng):
             mp['randomAlternativesOrdering'] = True
         req['methodParameters'] = mp
         groups.append([base_case(req, refmax=4)])
+    # weights closer than 1e-6 are still distinct weights: the heavier criterion is checked first (unit 2^24)
+    FU = 1 << 24
+    for t in range(24 if tier == 'quick' else 400):
+        W = FU * rng.choice([1, 2]) // 3
+        order = rng.sample(['c1', 'c2', 'c3'], 3)
+        ws = dict(zip(order, [W + 2, W + 1, W]))
+        known = [{'id': ALT[i], 'criteria': {c: FU * rng.choice([0, 1, 2, 3]) for c in ('c1', 'c2', 'c3')}} for i in range(4)]
+        req = {'preferenceFunction': 'aspectEliminationHeuristic', 'knownAlternatives': known, 'choseToMake': [a['id'] for a in known],
+               'criteria': [crit(j, 'gain') for j in range(3)], 'biases': [],
+               'methodParameters': {'weights': ws, 'function': 'thresholds', 'params': {'thresholds': [{c: FU * (4 if t % 2 else rng.choice([1, 2])) for c in ws}, {c: 3 * FU for c in ws}]},
+                                    'randomSeed': rng.randint(0, 50)}}     # (the recorded seed is a number of the unit too)
+        groups.append([base_case(req, refmax=4, unit=FU, pin=True)])
     # all four alternatives fail the first check: the ranking is the reverse of the walk order
     groups.append(shuffle_group('aspectEliminationHeuristic', {'function': 'thresholds', 'params': {'thresholds': [{'c1': 2 * UNIT}]}, 'weights': {'c1': UNIT}}, 'C12'))
     return groups
@@ -508,6 +532,17 @@ def drv_pipeline(tier, rng):
             r = copy.deepcopy(base)
             r['biases'] = [{'name': 'criteriaOmission', 'props': {'ratio': pipeline.PU // 2, 'max': 1, 'ordering': ordering, 'randomSeed': 17 + sd * 101}}]
             g.append(pcase(r, probe=False, methodref=False, pin=True, group={'id': 'x', 'rel': 'c15freq', 'p': 'C15', 'ordering': ordering}))
+        groups.append(g)
+    # ... and the second pick follows the same rule among the remaining criteria (two omitted)
+    for ordering in ('weakestByProbability', 'strongestByProbability'):
+        base = pipeline.gen_data(rng, 'majorityHeuristic', n=2, m=3, extra=0, declared=False)
+        base['criteria'] = [{'id': c, 'type': 'gain'} for c in ('c1', 'c2', 'c3')]
+        base['methodParameters'] = {'weights': {'c1': pipeline.PU, 'c2': 4 * pipeline.PU, 'c3': 16 * pipeline.PU}, 'drawResolution': 'allow'}
+        g = []
+        for sd in range(300 if tier == 'quick' else 3000):
+            r = copy.deepcopy(base)
+            r['biases'] = [{'name': 'criteriaOmission', 'props': {'ratio': pipeline.PU, 'min': 2, 'max': 2, 'ordering': ordering, 'randomSeed': 29 + sd * 103}}]
+            g.append(pcase(r, probe=False, methodref=False, pin=True, group={'id': 'x', 'rel': 'c15freq2', 'p': 'C15', 'ordering': ordering}))
         groups.append(g)
     # seeded reference-criterion strategies over many seeds (C18): importance 1 : 4 : 16, ranges 1 : 2 : 4 identify the reference
     for strategy in ('randomUniform', 'randomWeighted'):
@@ -900,6 +935,29 @@ def drv_repeat(tier, rng):
                     nud.append({'alt': a['id'], 'crit': c, 'k': rng.choice([0, 1, 2, 3, 5]), 'e': 20})
             rid += 1
             groups.append([{'fam': 'repeat', 'unit': pipeline.PU, 'rid': 'r%d' % rid, 'req': req, 'nudge': nud, 'repeat': 12 if tier == 'quick' else 40}])
+    # everything drawn from a request's own seed is a function of the request: the same seed again, in the same process,
+    # gives the same draw (random criteria ordering of omission / reversal, seeded walk orders of the heuristics)
+    for _ in range(3 if tier == 'quick' else 15):
+        for bias in ('criteriaOmission', 'preferenceReversal'):
+            req = pipeline.gen_data(rng, rng.choice(pipeline.METHODS), n=3, m=4, extra=0)
+            req['biases'] = [{'name': bias, 'props': {'ratio': pipeline.PU // 2, 'ordering': 'random', 'randomSeed': rng.randint(0, 50)}}]
+            rid += 1
+            groups.append([{'fam': 'repeat', 'unit': pipeline.PU, 'rid': 'r%d' % rid, 'req': req, 'repeat': 12 if tier == 'quick' else 40}])
+        for mth, mp in (('majorityHeuristic', {'weights': {'c1': pipeline.PU}, 'drawResolution': 'current'}),
+                        ('aspectEliminationHeuristic', {'function': 'thresholds', 'params': {'thresholds': [{'c1': 2 * pipeline.PU}]}, 'weights': {'c1': pipeline.PU}}),
+                        ('satisfactionHeuristic', {'function': 'thresholds', 'params': {'thresholds': [{'c1': 0}]}})):
+            known = [{'id': 'a%d' % i, 'criteria': {'c1': pipeline.PU}} for i in range(1, 6)]
+            req = {'preferenceFunction': mth, 'knownAlternatives': known, 'choseToMake': [a['id'] for a in known], 'criteria': [{'id': 'c1', 'type': 'gain'}],
+                   'methodParameters': dict(mp, randomSeed=rng.randint(0, 50), randomAlternativesOrdering=True), 'biases': []}
+            rid += 1
+            groups.append([{'fam': 'repeat', 'unit': pipeline.PU, 'rid': 'r%d' % rid, 'req': req, 'repeat': 12 if tier == 'quick' else 40}])
+    # equal criterion weights: the order among them is drawn from the request's seed, hence the same every time
+    for _ in range(6 if tier == 'quick' else 30):
+        req = pipeline.gen_data(rng, 'aspectEliminationHeuristic', n=rng.randint(3, 5), m=3, extra=0)
+        for c in req['methodParameters']['weights']:
+            req['methodParameters']['weights'][c] = pipeline.PU
+        rid += 1
+        groups.append([{'fam': 'repeat', 'unit': pipeline.PU, 'rid': 'r%d' % rid, 'req': req, 'repeat': 12 if tier == 'quick' else 40}])
     # map-shaped parameters whose keys collide after normalisation (one criteria union spelled in two orders, with two
     # different capacities): whatever the answer is - the pinned code rejects them - it must be the same every time
     for _ in range(4 if tier == 'quick' else 20):
